@@ -42,3 +42,93 @@ PROPS['C01'] = dict(
     assumptions=['value identity = SHA-1 of the bytes (driver side); the TLA+ model compares identities',
                  'TLC explores the mechanism model exhaustively only for the bounded constants listed in mc_runs'],
 )
+
+E_ASSUME = ['value identity = SHA-1 of the bytes (driver side); the TLA+ model compares identities',
+            'TLC explores the mechanism model exhaustively only for the bounded constants listed in mc_runs']
+
+PROPS['C02'] = dict(
+    level='model_checking',
+    mc=[xixi_mc('MC_Restart', ['MapSemantics', 'QuiescentLiveEqualsRecovered', 'RecoveredOK', 'NeverFails', 'LockDiscipline'],
+                quick=dict(MaxOps=4, MaxRestarts=2, MaxMerges=1), thorough=dict(MaxOps=5, MaxRestarts=2))],
+    traces=[dict(profile='restart', spec='EngineTrace',
+                 enforce=['open', 'vals', 'keys', 'fold', 'statkeys', 'scan', 'index'],
+                 quick_seeds=1, thorough_seeds=1)],
+    assumptions=E_ASSUME + ['end offsets 1..7 of a block (and 1..11 of block 0) are unreachable through DB.Put and are not swept'],
+)
+
+PROPS['C05'] = dict(
+    level='model_checking',
+    mc=[xixi_mc('MC_Batch', ['MapSemantics', 'QuiescentLiveEqualsRecovered', 'RecoveredOK', 'NeverFails', 'FileSizeRespected'],
+                Features='{"batch", "delete", "restart"}', MaxMerges=0,
+                quick=dict(MaxOps=6, MaxBatch=4), thorough=dict(MaxOps=7, MaxBatch=5))],
+    traces=[dict(profile='batch', spec='EngineTrace',
+                 enforce=['bres', 'res', 'open', 'vals', 'keys', 'scan', 'index'],
+                 quick_seeds=1, thorough_seeds=2)],
+    assumptions=E_ASSUME,
+)
+
+PROPS['C17'] = dict(
+    level='model_checking',
+    mc=[xixi_mc('MC_Stat', ['AccountingExact', 'FileSizeRespected', 'MapSemantics'],
+                quick=dict(MaxOps=4), thorough=dict(MaxOps=5))],
+    traces=[dict(profile='stat', spec='EngineTrace',
+                 enforce=['stat', 'statkeys', 'files', 'open'],
+                 quick_seeds=1, thorough_seeds=2)],
+    assumptions=E_ASSUME + ['bytes occupied by a live record = the size the index reports for it (C11 decides that this size is right)',
+                            'a file may exceed the largest DataFileSize used so far in the run only with one record (+ sealing record)'],
+)
+
+ALL_RES = ['res', 'bres', 'open', 'vals', 'keys', 'fold', 'scan', 'index', 'statkeys']
+
+PROPS['C14'] = dict(
+    level='model_checking',
+    mc=[xixi_mc('MC_Cfg', ['MapSemantics', 'QuiescentLiveEqualsRecovered', 'RecoveredOK'],
+                quick=dict(MaxOps=4, Limit=1), thorough=dict(MaxOps=5, Limit=3))],
+    traces=[dict(profile='lockstep', spec='EngineTrace', enforce=ALL_RES + ['xcfg', 'xbytes'],
+                 quick_seeds=1, thorough_seeds=1)],
+    assumptions=E_ASSUME + ['the specification does not mention IndexType, ShardNum or FileIOType: every configuration is judged against the same deterministic model, plus a direct digest comparison of the transcripts',
+                            'MC_Cfg re-checks the mechanism invariants under other Limit values (layout changes, results do not)'],
+)
+
+PROPS['C15'] = dict(
+    level='model_checking',
+    mc=[xixi_mc('MC_Hostile', ['MapSemantics', 'QuiescentLiveEqualsRecovered'], Features='{"batch", "delete", "restart"}',
+                MaxMerges=0, quick=dict(MaxOps=5), thorough=dict(MaxOps=6))],
+    traces=[dict(profile='hostile', spec='EngineTrace', enforce=ALL_RES + ['caller_intact', 'returned_intact'],
+                 quick_seeds=1, thorough_seeds=2)],
+    assumptions=E_ASSUME + ['the caller\'s buffers are not part of the specification\'s state: scribbling is a stuttering step, so every later result must still follow the model',
+                            'slices returned by Batch.Get are not monitored (the property names Get)'],
+)
+
+PROPS['C20'] = dict(
+    level='model_checking',
+    mc=[xixi_mc('MC_Backup', ['QuiescentLiveEqualsRecovered', 'MapSemantics', 'RecoveredOK'],
+                quick=dict(MaxOps=4), thorough=dict(MaxOps=5))],
+    traces=[dict(profile='backup', spec='EngineTrace', enforce=['backup', 'res', 'bres', 'open', 'vals', 'keys', 'scan', 'index'],
+                 quick_seeds=1, thorough_seeds=2)],
+    assumptions=E_ASSUME + ['in the model a backup is the logical content of every file without the lock; QuiescentLiveEqualsRecovered states that recovering such a copy yields the live view',
+                            'an engine death (SIGBUS) after a backup ends the driver; the parent appends a died event, which no specification action accepts'],
+)
+
+PROPS['C06'] = dict(
+    level='model_checking',
+    mc=[xixi_mc('MC_Merge', ['MapSemantics', 'QuiescentLiveEqualsRecovered', 'RecoveredOK', 'NeverFails', 'AccountingExact'],
+                properties=['MergeDirGone', 'AdoptedDirIsMinimal'], Features='{"batch", "merge", "restart", "delete"}',
+                quick=dict(MaxOps=4, MaxMerges=2, MaxRestarts=2, Limit=2), thorough=dict(MaxOps=5, MaxMerges=2, MaxRestarts=2, Limit=2))],
+    traces=[dict(profile='merge', spec='EngineTrace',
+                 enforce=['res', 'bres', 'open', 'vals', 'keys', 'fold', 'scan', 'index', 'nomdir', 'adopted', 'statkeys'],
+                 quick_seeds=1, thorough_seeds=2)],
+    assumptions=E_ASSUME + ['Merge may return an error (then only "the mapping is unchanged" is demanded); the evidence reports how many merges succeeded',
+                            'racing writers during the merge scan are covered by the model (client calls interleave with MergeScan steps) and by C08\'s concurrent driver, not by this sequential profile'],
+)
+
+PROPS['C18'] = dict(
+    level='model_checking',
+    mc=[xixi_mc('MC_Hint', ['QuiescentLiveEqualsRecovered', 'RecoveredOK', 'NeverFails', 'MapSemantics'],
+                properties=['AdoptedDirIsMinimal'], Features='{"batch", "merge", "restart", "delete"}',
+                quick=dict(MaxOps=4, MaxMerges=1, MaxRestarts=2, Limit=1), thorough=dict(MaxOps=5, MaxMerges=2, MaxRestarts=2, Limit=1))],
+    traces=[dict(profile='merge', spec='EngineTrace', enforce=['hint', 'hintcmp', 'open'],
+                 quick_seeds=1, thorough_seeds=2)],
+    assumptions=E_ASSUME + ['the hint file and the rewritten files are decoded with the package\'s own readers (C11/C12 decide those)',
+                            'in the model the index after an adopting Open is built by HintFold + scan of the later files, and QuiescentLiveEqualsRecovered compares it with a full scan'],
+)
